@@ -6,12 +6,13 @@
 set -u
 P=$1
 V=$(cd "$(dirname "$0")/.." && pwd)
-S=/tmp/seed/$P; R=$S/repo; O=$S/out
+S=${SEED_ROOT:-/tmp/seed}/$P; R=$S/repo; O=$S/out
+SD=$V/seeded/$P${SEED_SUFFIX:-}
 git -C /repo worktree remove --force $R 2>/dev/null; rm -rf $R
 git -C /repo worktree prune
 mkdir -p $O
-cp $V/seeded/$P/patch.diff $V/seeded/$P/meta.json $O/
-cp $V/seeded/$P/demo* $O/ 2>/dev/null
+cp $SD/patch.diff $SD/meta.json $O/
+cp $SD/demo* $O/ 2>/dev/null
 git -C /repo worktree add -q --detach $R main || exit 2
 if ! git -C $R apply --3way $O/patch.diff 2> $S/apply.err; then
   echo "RESEED $P: patch does not apply to the current tree"; cat $S/apply.err | tail -5
